@@ -102,6 +102,9 @@ def algebraic_solves(ck, prog, tier):
                     break
                 sol = [dag.lift(x.sym.get(i, dag.atom("rhs_%d" % i))) for i in range(n)]
                 results.append(sol)
+                if dom.oob:
+                    bad = "solve #%d: out-of-range access %s[%s] (length %s) at %s" % ((rep + 1,) + tuple(dom.oob[0]))
+                    break
                 for i in range(n):
                     lhs = dag.total(dag.mul(A[(i, j)], sol[j]) for j in range(n) if (i, j) in A)
                     if not dag.equal(lhs, dag.atom("rhs_%d" % i)):
